@@ -241,13 +241,12 @@ theorem tokenToModifier_nofuel (t : Token) (k v : String) : NoFuel (tokenToModif
   unfold tokenToModifier
   split
   · trivial
+  split
   · trivial
-  · split
-    · trivial
-    · exact toneValue_nofuel t k v
-  · split
-    · trivial
-    · exact toneValue_nofuel t k v
+  split
+  · trivial
+  split
+  · trivial
   · exact toneValue_nofuel t k v
 
 theorem putArg_nofuel (a : Modifiers) (k v : String) (m : Mods) : NoFuel (putArg a k v m) := by
@@ -1061,14 +1060,14 @@ def TermSpec (s1 : PS) : PRes TermStep → Prop
   | .outOfFuel _ => False
   | _ => True
 
-theorem termStep_spec (site : String) (term : List PItem) (s1 : PS) (hi : Inv s1) : TermSpec s1 (termStep site term s1) := by
+theorem termStep_spec (term : List PItem) (s1 : PS) (hi : Inv s1) : TermSpec s1 (termStep term s1) := by
   unfold termStep
   by_cases ht : term.isEmpty = true
   · simp only [ht, if_true, Bool.true_and]
     rcases expect_cases s1 .comma hi (by decide) with ⟨he, h1⟩ | he
     · simp only [he, Bool.not_true, Bool.false_eq_true, if_false]
       split
-      · split <;> trivial
+      · trivial
       · rcases expect_cases s1.advance .comma h1.inv (by decide) with ⟨he2, h2⟩ | he2
         · simp only [he2]; exact h1.trans h2
         · simp only [he2]; exact h1.toLe
@@ -1076,7 +1075,7 @@ theorem termStep_spec (site : String) (term : List PItem) (s1 : PS) (hi : Inv s1
       exact Le.refl s1 hi
   · simp only [ht, Bool.false_eq_true, if_false, Bool.false_and]
     split
-    · split <;> trivial
+    · trivial
     · rcases expect_cases s1 .comma hi (by decide) with ⟨he2, h2⟩ | he2
       · simp only [he2]; exact h2
       · simp only [he2]; exact Le.refl s1 hi
@@ -1108,7 +1107,7 @@ theorem inputLoop_spec : ∀ (fuel : Nat) (s : PS) (inputs : List (List PItem)),
         have h1 : Le s s1 := h1
         split
         · split <;> trivial
-        · have h2 := termStep_spec "get_input: unreachable!()" term s1 h1.inv
+        · have h2 := termStep_spec term s1 h1.inv
           split
           · rename_i s2 hy; rw [hy] at h2; exact h1.trans h2
           · rename_i s3 hy; rw [hy] at h2
@@ -1179,7 +1178,7 @@ theorem outputLoop_spec : ∀ (fuel : Nat) (s : PS) (outputs : List (List PItem)
           · trivial
           · trivial
           · rename_i hy; rw [hy] at this; exact this
-        · have h2 := termStep_spec "get_output: unreachable!()" term s1 h1.inv
+        · have h2 := termStep_spec term s1 h1.inv
           split
           · rename_i s2 hy; rw [hy] at h2; exact h1.trans h2
           · rename_i s3 hy; rw [hy] at h2
